@@ -139,7 +139,11 @@ def zreal(x):
     if isinstance(x, bool):
         return z3.RealVal(int(x))
     if isinstance(x, float):
-        raise Unsupported(f"special float {x} in symbolic arithmetic")
+        # +-inf / nan inside symbolic arithmetic: distinguished real constants.  Identical op sequences
+        # on both sides still compare equal; inf-inf / nan effects are outside every claim (float model).
+        if x != x:
+            return z3.Real("NaN!")
+        return z3.Real("+Inf!") if x > 0 else -z3.Real("+Inf!")
     return z3.RealVal(x)
 
 
@@ -286,7 +290,9 @@ class Ops:
             a, b = b, a
         if not is_sym(a):
             if is_special(a):
-                raise Unsupported("special * symbolic")
+                a = zreal(a)
+                f = uf("mul_f", _R, _R, _R)
+                return f(a, zreal(b))
             if a == 0:
                 return conc(0, kind)
             if a == 1:
@@ -326,11 +332,11 @@ class Ops:
                 if is_special(b):
                     if math.isinf(b) and not is_special(a) and not isinstance(a, SpecialIte):
                         return Fraction(0)
-                    raise Unsupported("div by special")
+                    return uf("div_f", _R, _R, _R)(zreal(a), zreal(b))
                 if b == 0:
                     if not is_sym(a) and not is_special(a):
                         return float("nan") if a == 0 else math.copysign(float("inf"), a)
-                    raise Unsupported("symbolic / 0")
+                    return uf("div_f", _R, _R, _R)(zreal(a), z3.RealVal(0))
                 return self.mul(Fraction(1) / Fraction(b), a, kind)
             if isinstance(a, SpecialIte) or isinstance(b, SpecialIte):
                 return SpecialIte.lift2(self, lambda x, y: self.div(x, y, kind), a, b)
@@ -358,7 +364,7 @@ class Ops:
         if kind == "f":
             if not is_sym(a) and not is_sym(b):
                 return Fraction(math.fmod(a, b))
-            raise Unsupported("float rem")
+            return uf("rem_f", _R, _R, _R)(zreal(a), zreal(b))
         if not is_sym(a) and not is_sym(b):
             return int(math.fmod(a, b))
         if not is_sym(b) and b > 0:
@@ -1394,6 +1400,8 @@ class Interp:
                 raise Unsupported("while: more than 64 concrete iterations")
             state = self.eval_closed(p["body_jaxpr"], bconsts + state)
         # phase 2: symbolic condition, bounded unrolling with unwinding assertion
+        if any(is_key_dtype(v.aval.dtype) for v in eqn.invars):
+            raise Unsupported("while loop carrying PRNG keys with a symbolic condition (rejection sampler)")
         guards = []
         for _ in range(self.while_bound):
             c = lower(self.eval_closed(p["cond_jaxpr"], cconsts + state)[0][()])
